@@ -61,4 +61,4 @@ def run(tier, seed, replay=None):
         "C08", tier, seed, replay,
         judges=[("handed out exactly once", conc.judge_handout),
                 ("draining match", lambda rec, prog, info: conc.judge_drain(rec))],
-        n_quick=2500, n_thorough=60000, extra_obligations=queue_part)
+        n_quick=2500, n_thorough=60000, extra_obligations=queue_part, flags="drain,mode=O,proj=map+tk")
